@@ -203,6 +203,10 @@ def run_pipeline(o, path, trace=False, canary=False, stop_on_fail=False):
     else:
         gb = a_gb
     flags = [] if (o.no_checks or canary) else list(CBMC_CHECKS)
+    if not use_dfcc:
+        # ghost cells / limits are file-scope objects: without DFCC they would be zero-initialised, with this flag every
+        # non-const static starts arbitrary (DFCC does the same on its own); const tables keep their values
+        flags += ['--nondet-static']
     if canary:
         flags += ['--stop-on-fail']
     if o.unwind is not None:
